@@ -96,6 +96,9 @@ func (s *CDCStreamer) CommitHook() bool {
 		stats.Add(cdcDroppedEvents, 1)
 	}
 	s.pending = &command.CDCIndexedEventGroup{
+		// Later commits of the same log entry (one per statement of a
+		// non-transactional request) belong to the same index.
+		Index:  s.pending.Index,
 		Events: make([]*command.CDCEvent, 0),
 	}
 	return true
